@@ -14,6 +14,7 @@ import (
 	"math/rand"
 	"os"
 	"path/filepath"
+	"runtime/coverage"
 	"sort"
 	"time"
 
@@ -60,11 +61,20 @@ func main() {
 	meta := map[string]interface{}{
 		"property": *prop, "tier": *tier, "seed": *seed,
 		"cases": c.NCases, "distinct_cases": len(c.Distinct), "oracle_checks": c.NOracle,
-		"oracle_failures": c.Fails, "histogram": c.Hist, "samples": c.Samples, "notes": c.Notes,
+		"oracle_failures": c.Fails, "oracle_failed_total": c.NFailed, "oracle_failed_by_sig": c.FailCounts(), "histogram": c.Hist, "samples": c.Samples, "notes": c.Notes,
 		"wall_s": time.Since(t0).Seconds(),
 	}
 	mb, _ := json.MarshalIndent(meta, "", " ")
 	os.WriteFile(filepath.Join(*out, *prop+".meta.json"), mb, 0o644)
+	if d := os.Getenv("VERIF_COVERDIR"); d != "" {
+		// a build with -cover (bin/coverage): which library code did this stream reach
+		if err := coverage.WriteMetaDir(d); err != nil {
+			fmt.Fprintln(os.Stderr, "coverage meta:", err)
+		}
+		if err := coverage.WriteCountersDir(d); err != nil {
+			fmt.Fprintln(os.Stderr, "coverage counters:", err)
+		}
+	}
 }
 
 // guard runs f and reports whether it panicked.
